@@ -12,6 +12,7 @@
    [add_value], [sv_iter], [run_ops], [from_row] model SerializedValues;  [row_check] /
    [typed_rows] the row type check in front of every typed row iterator. *)
 From SV Require Import Base.Prelude Base.Bytes Model.Vint Model.Cql Model.Accept Proofs.Cql_proofs Proofs.Accept_proofs.
+From SV Require Model.Request.
 Open Scope N_scope.
 
 (* ---- the acceptance matrices ----------------------------------------------------------- *)
@@ -281,6 +282,36 @@ Theorem C17_count_after_row : forall cols vals s ops, from_row cols vals = Ok s 
                 sv_count (fold_left apply_op ops s) <= u16_max.
 Proof. intros cols vals s ops H. exact (wf_ops_count s ops (from_row_wf cols vals s H)). Qed.
 
+(* ---- rows bound by name (BTreeMap / HashMap<String | &str, T>) and the other built-in rows ------ *)
+(* [from_typed_row] = C09's [Request.bind_row] (imported) instantiated with the real value serialiser.
+   A SerializedValues comes out only if every column found its value (by name for maps) and every
+   value serialised; it then holds exactly one well-formed cell per column - the bytes [ser_out]
+   gives for the value supplied for THAT column -, nothing supplied is left over, and the invariant
+   holds (count = cells, and so after any later add_value sequence: wf_ops_count) *)
+Theorem C17_named_row_count : forall (cols : list (bytes * ctype)) r s, from_typed_row cols r = Ok s ->
+  (exists cells, sv_iter s = Some cells /\ N.of_nat (List.length cells) = sv_count s) /\
+  sv_count s = N.of_nat (List.length cols) /\
+  Request.row_complete (carrier * kval) ctype cols r /\
+  exists chunks : list bytes, sv_bytes s = concat chunks /\ List.length chunks = List.length cols /\
+    forall i nm t, nth_error cols i = Some (nm, t) ->
+      exists kv o, Request.supplied (carrier * kval) r i nm = Some kv /\
+                   ser_out (fst kv) true t (snd kv) = (o, None) /\ nth_error chunks i = Some o.
+Proof.
+  intros cols r s H. destruct (typed_row_ok cols r s H) as (Hw & Hc & Hr & Hch).
+  split; [|auto]. destruct (sv_wf_iter s Hw) as (cells & Hi & Hl & _). eauto.
+Qed.
+
+(* the rollback half for rows: a value that does not serialise (at any depth), a column without a
+   value, or a key that names no column - and no SerializedValues exists at all *)
+Theorem C17_named_row_refuses : forall (cols : list (bytes * ctype)) r i nm t kv,
+  nth_error cols i = Some (nm, t) -> Request.supplied (carrier * kval) r i nm = Some kv ->
+  (exists e, snd (ser_out (fst kv) true t (snd kv)) = Some e) -> exists e, from_typed_row cols r = Err e.
+Proof. exact typed_row_refuses. Qed.
+Theorem C17_named_row_names : forall (cols : list (bytes * ctype)) kvs s, from_typed_row cols (Request.RMap kvs) = Ok s ->
+  (forall nm t, In (nm, t) cols -> exists kv, Request.assoc (carrier * kval) nm kvs = Some kv) /\
+  (forall k, In k (map fst kvs) -> Request.col_named ctype cols k = true).
+Proof. exact typed_row_map_names. Qed.
+
 (* from_closure: the number of values written through a RowWriter (cells and appended rows) is
    either reported exactly or refused - it never wraps *)
 Theorem C17_closure_count : forall parts n, closure_count parts = Ok n ->
@@ -410,6 +441,21 @@ Example C17_ex_value_overflow :
   is_typeck KE_ValueOverflow = false /\ is_size_err KE_ValueOverflow = false /\ is_refusal KE_ValueOverflow = true.
 Proof. vm_compute. repeat split; reflexivity. Qed.
 
+(* a row bound by name: the columns are (b int, a text), the map supplies a and b in another order;
+   an unknown key, a missing column and a value that does not fit refuse the row *)
+Example C17_ex_named_row :
+  let cols := [([98], tint); ([97], ttext)] in
+  let va := (KBase BString, VLeaf (CText [120])) in
+  let vb := (KOption (KBase BI32), VNull) in
+  from_typed_row cols (Request.RMap [([97], va); ([98], vb)]) =
+    Ok {| sv_bytes := [255; 255; 255; 255; 0; 0; 0; 1; 120]; sv_count := 2 |} /\
+  from_typed_row cols (Request.RMap [([97], va); ([98], vb); ([99], vb)]) = Err (Request.NoColumnWithName [99]) /\
+  from_typed_row cols (Request.RMap [([97], va)]) = Err (Request.ValueMissingForColumn [98]) /\
+  from_typed_row cols (Request.RMap [([98], va); ([97], va)]) = Err (Request.ColumnSerializationFailed [98]) /\
+  from_typed_row cols (Request.RSeq [vb; va]) = Ok {| sv_bytes := [255; 255; 255; 255; 0; 0; 0; 1; 120]; sv_count := 2 |} /\
+  cell_of_out [0; 0; 0; 1; 120] = Request.CVal [120] /\ cell_wire (Request.CVal [120]) = [0; 0; 0; 1; 120].
+Proof. vm_compute. repeat split; reflexivity. Qed.
+
 Print Assumptions C17_code_matrix.
 Print Assumptions C17_matrix_ser_doc_refuted.
 Print Assumptions C17_matrix_ser.
@@ -445,3 +491,6 @@ Print Assumptions C17_row_refuses.
 Print Assumptions C17_chunks.
 Print Assumptions C17_count_after_row.
 Print Assumptions C17_closure_count.
+Print Assumptions C17_named_row_count.
+Print Assumptions C17_named_row_refuses.
+Print Assumptions C17_named_row_names.
